@@ -84,3 +84,11 @@ claim('C08', 'bounded symbolic execution of the real reader and DOM loader on co
       'object-model classes, by reflection) raises only BaseDiffXError subclasses and always closes the stream.',
       BASE_NOTE + ' json.loads on undetermined symbolic text is exact on a small catalogue and otherwise assumed '
       'invalid (paths flagged).', 'DESIGN.md section 4, C08')
+
+claim('C07', 'bounded symbolic execution of the real reader on every truncation F[:p] of files with symbolic content, records compared with the intact file\'s records by z3; length perturbations',
+      'For three skeleton files with a symbolic content section (1..3 bytes quick / 1..5 thorough + LF) and every cut '
+      'point 0..len(F), the real reader is run on the intact file and on the truncated file in the same symbolic '
+      'path; z3 decides that the records of the truncated file are a prefix of the intact ones (ids, options, content), '
+      'followed by end or DiffXParseError. Lengths exceeding the data present, negative, non-numeric and int()-exotic '
+      'tokens likewise. One known finding (short read accepted) is listed in known_findings.json.',
+      BASE_NOTE, 'DESIGN.md section 4, C07; section 5 (D4)')
